@@ -1,7 +1,7 @@
 """C16 — the bundled x86-64 decoder: total, and exact on compiler-emitted code.
 Spec: X86Format.tla (instruction-format model), X86Core.tla (its claimed domain), Gen_X86.tla
 (spec -> code encodings), Trace_X86.tla (judge)."""
-import json, os
+import glob, json, os, subprocess
 from lib import vlib
 
 GO_BINS = ["/usr/lib/go-1.23/bin/gofmt", "/usr/lib/go-1.23/pkg/tool/linux_amd64/link", "/usr/lib/go-1.23/pkg/tool/linux_amd64/compile"]
@@ -34,6 +34,60 @@ def judge(ctx, path, tag):
     return tally
 
 
+def differential(ctx, q):
+    """goom's decoder against the Go toolchain's own copy of x/arch x86asm on the .text of real binaries"""
+    roots = [subprocess.run(["go", "env", "GOROOT"], capture_output=True, text=True).stdout.strip()] + sorted(glob.glob("/usr/lib/go-*")) + sorted(glob.glob("/opt/veriftools/go*"))
+    files, src = None, None
+    for root in roots:
+        d = os.path.join(root, "src/cmd/vendor/golang.org/x/arch/x86/x86asm")
+        srcs = [f for f in sorted(glob.glob(os.path.join(d, "*.go"))) if not f.endswith("_test.go")]
+        if srcs:
+            files, src = {"zzverif/refx86/" + os.path.basename(f): open(f).read() for f in srcs}, d
+            break
+    if files is None:
+        ctx.note("no reference x86 decoder found under GOROOT/src/cmd/vendor: only the format model judged agreement")
+        ctx.assumptions.append("reference decoder sources absent: only the format model judged agreement")
+        return
+    ov = ctx.extra_overlay(ctx.overlay(["x86", "x86diff"]), files)
+    binary = ctx.build_test("internal/arch/x86asm", ["x86", "x86diff"], name="x86diff", overlay=ov)
+    bins = [None] + ([] if q else [b for b in GO_BINS if os.path.exists(b)])
+    for b in bins:
+        out = ctx.path("x86diff.ndjson")
+        env = {"VERIF_OUT": out, "VERIF_KEEP": "50" if q else "20"}
+        if b:
+            env["VERIF_BIN"] = b
+        tag = "reference differential, .text of " + (os.path.basename(b) if b else "the driver binary")
+        rc, o = ctx.run_bin(binary, "^TestVerifX86Diff$", env=env, timeout=900)
+        if rc != 0 or not os.path.exists(out):
+            ctx.violation("the x86 differential driver crashed: " + o[-800:], {"family": "x86", "kind": "crash", "tail": o[-2000:]})
+            continue
+        lines = open(out).read().splitlines()
+        open(os.path.join(ctx.specdir(), "trace.ndjson"), "w").write("\n".join(lines) + "\n")
+        r = ctx.tlc("Trace_X86", "Trace_X86.cfg", workers=1, timeout=2400, tag=tag, jvm="-Xss64m")
+        summ = [x for x in ctx.behaviours(r) if isinstance(x, dict) and x.get("summary")]
+        if not summ:
+            raise vlib.Broken("no summary from Trace_X86: " + r["out"][-800:])
+        tot = json.loads(lines[-1])
+        for what, idx in summ[0]["bad"]:
+            e = json.loads(lines[idx - 1])
+            if e["src"] == "dsum":
+                ctx.violation("%s: %d of %d distinct instructions disagree with the reference decoder: %s" % (tag, e["differ"], e["uniq"], what),
+                              {"family": "x86", "kind": what, "bin": b or "driver"})
+                continue
+            hexs = " ".join("%02x" % x for x in e["b"])
+            ctx.violation("x86 decoder on [%s] (%s): %s; goom says err=%s len=%d pcrel=%d@%d op=%s %s, the reference decoder says err=%s len=%d pcrel=%d@%d op=%s" % (
+                hexs, tag, what, e["err"], e["len"], e["rel"], e["off"], e["op"], e["panic"], e["rerr"], e["rlen"], e["rrel"], e["roff"], e["rop"]),
+                {"family": "x86", "kind": what, "bytes": e["b"], "decoder": {k: e[k] for k in ("err", "len", "rel", "off", "op")},
+                 "reference": {k: e[k] for k in ("rerr", "rlen", "rrel", "roff", "rop")}})
+        ctx.cov["traces_validated_against_impl"] += len(lines)
+        ctx.cov["evaluations"] += tot["uniq"]
+        ctx.cov["distinct_nontrivial"] += tot["agree"]
+        ctx.note("%s (%s): %d instructions, %d distinct, %d agree with the reference on boundary, opcode and PC-relative field, %d differ; %d functions end in bytes the reference does not decode" % (
+            tag, src, tot["total"], tot["uniq"], tot["agree"], tot["differ"], tot["refstop"]))
+        if tot["uniq"] < 20000:
+            raise vlib.Broken("too few instructions compared (%d): vacuous" % tot["uniq"])
+
+
 def run(ctx):
     q = ctx.quick()
     g = ctx.tlc("Gen_X86", "Gen_X86.cfg", workers=1, timeout=900, tag="format grammar over Core: encodings + model sanity",
@@ -55,6 +109,7 @@ def run(ctx):
     ctx.sample(json.loads(open(out).readline()))
     if t["ok"] < 50000:
         raise vlib.Broken("too few judged records (%d): vacuous" % t["ok"])
+    differential(ctx, q)
     if not q:
         for b in GO_BINS:
             if not os.path.exists(b):
@@ -69,7 +124,10 @@ def run(ctx):
                        "generated by TLC from the format grammar over the claimed domain, operand-mutated real instructions, every "
                        "truncation length, random strings <= 16 bytes; every record judged inside TLC by the format model: totality "
                        "(no panic, len in 1..15 and <= supplied, PC-relative field inside) on ALL records, exactness (length, PC-rel "
-                       "field position/width, branch class) on the claimed domain Core; distinct_nontrivial = records judged ok")
+                       "field position/width, branch class) on the claimed domain Core; plus boundary, opcode and PC-relative field of every distinct "
+                       "instruction of real .text compared with the reference decoder (boundaries are the reference's), every kept record and "
+                       "the summary judged by TLC; distinct_nontrivial = records judged ok")
     ctx.assumptions += ["claimed domain = X86Core.tla (281 opcode-map/opcode//reg signatures that occur in compiler-generated code); "
                         "VEX/EVEX and encodings outside Core are checked for totality only",
-                        "mnemonic and operand agreement beyond the branch class is not decided by a format model (DESIGN §5)"]
+                        "mnemonic agreement beyond the branch class is decided against the Go toolchain's own copy of x/arch x86asm on the .text of real "
+                        "binaries (same lineage as goom's copy: a mistake common to both is seen only where the format model covers it)"]
